@@ -83,11 +83,12 @@ func main() {
 	effects := genEffects(*repo)
 	bounds := genBounds(*repo)
 	sliceops := genSliceOps(*repo)
+	resolverSrc := genResolverSrc(*repo)
 	if err := os.MkdirAll(*out, 0o755); err != nil {
 		fmt.Fprintln(os.Stderr, "srcgen:", err)
 		os.Exit(1)
 	}
-	for name, text := range map[string]string{"Consts.v": consts, "Chain.v": chain, "Effects.v": effects, "Bounds.v": bounds, "SliceOps.v": sliceops} {
+	for name, text := range map[string]string{"Consts.v": consts, "Chain.v": chain, "Effects.v": effects, "Bounds.v": bounds, "SliceOps.v": sliceops, "ResolverSrc.v": resolverSrc} {
 		path := filepath.Join(*out, name)
 		old, err := os.ReadFile(path)
 		if err == nil && string(old) == text {
